@@ -43,18 +43,23 @@ MC_CONC_NEG = mc_conc({}, {}, asbuilt=True, expect_violation=True, thorough_only
 MC_KEYS_STRICT = mc_conc({'MAXOPS': '2', 'LAYOUTS': 'LayoutSome', 'TRANSPORT': 'log'}, {'MAXOPS': '3', 'LAYOUTS': 'LayoutSome', 'TRANSPORT': 'log'}, cfg='MC_Keys.cfg')
 MC_KEYS_ASBUILT = mc_conc({'MAXOPS': '2', 'TRANSPORT': 'log'}, {'MAXOPS': '2', 'LAYOUTS': 'LayoutSome', 'TRANSPORT': 'log'}, cfg='MC_Keys.cfg', asbuilt=True, thorough_only=True)
 
+MC_SNAP = mc_conc({'MAXOPS': '1', 'TRANSPORT': 'log', 'SNAPFAILS': 'FALSE'}, {'MAXOPS': '2', 'TRANSPORT': 'log', 'SNAPFAILS': 'FALSE'}, cfg='MC_Snap.cfg', timeout=3000)
+MC_SNAP_FAIL = mc_conc({'MAXOPS': '1', 'TRANSPORT': 'log', 'SNAPFAILS': 'TRUE'}, {'MAXOPS': '1', 'TRANSPORT': 'log', 'SNAPFAILS': 'TRUE', 'LAYOUTS': 'LayoutSome'}, cfg='MC_Snap.cfg', timeout=3000)
+MC_SNAP_ASBUILT = mc_conc({'MAXOPS': '1', 'TRANSPORT': 'log', 'SNAPFAILS': 'FALSE'}, {'MAXOPS': '1', 'TRANSPORT': 'log', 'SNAPFAILS': 'TRUE'}, cfg='MC_Snap.cfg', asbuilt=True, thorough_only=True, timeout=3000)
+
 PROPS = {
     'C01': seq_prop('c01', 150, 2500, mc=[MC_STORE_STRICT, MC_STORE_ASBUILT, MC_STORE_NEG]),
     'C02': seq_prop('c02', 120, 2000, mc=[MC_ATOMIC], more=[fam('conc', 'c02', 16, 300)]),
     'C03': seq_prop('c03', 150, 2500, mc=[MC_STORE_STRICT, MC_STORE_ASBUILT]),
     'C06': seq_prop('c06', 60, 1500, mc=[MC_CONC_STRICT, MC_CONC_LOG, MC_CONC_ASBUILT, MC_CONC_NEG],
                     more=[fam('conc', 'c06', 24, 400), fam('conc', 'c06dfs', 1, 16)]),
-    'C07': seq_prop('c07', 120, 2000, mc=[], more=[fam('seq', 'c07k', 40, 500)]),
-    'C08': {'level': 'model_checking', 'mc': [], 'families': [fam('conc', 'c08', 32, 500), fam('conc', 'c08dfs', 1, 12)], 'trace': COLUMN_TRACE, 'assumptions': []},
+    'C07': seq_prop('c07', 120, 2000, mc=[MC_SNAP], more=[fam('seq', 'c07k', 40, 500)]),
+    'C08': {'level': 'model_checking', 'mc': [MC_SNAP, MC_SNAP_ASBUILT], 'families': [fam('conc', 'c08', 32, 500), fam('conc', 'c08dfs', 1, 12)], 'trace': COLUMN_TRACE, 'assumptions': []},
     'C09': {'level': 'model_checking', 'mc': [MC_CONC_STRICT], 'families': [fam('conc', 'c09', 48, 800)], 'trace': COLUMN_TRACE, 'assumptions': []},
     'C11': seq_prop('c11', 100, 2000, mc=[MC_CONC_STRICT, MC_CONC_ASBUILT], more=[fam('conc', 'c11', 32, 500)]),
     'C12': seq_prop('c12', 150, 2500, mc=[MC_KEYS_STRICT, MC_KEYS_ASBUILT], more=[fam('conc', 'c12', 24, 400)]),
-    'C14': {'level': 'model_checking', 'mc': [], 'families': [fam('fault', 'c14', 12, 12, shards=6), fam('fault', 'c14t', 0, 6, shards=6)], 'trace': COLUMN_TRACE, 'assumptions': []},
+    'C13': {'level': 'model_checking', 'mc': [MC_SNAP], 'families': [fam('trunc', 'c13', 8, 16, shards=8), fam('trunc', 'c13t', 0, 8, shards=8)], 'trace': COLUMN_TRACE, 'assumptions': []},
+    'C14': {'level': 'model_checking', 'mc': [MC_SNAP_FAIL], 'families': [fam('fault', 'c14', 12, 12, shards=6), fam('fault', 'c14t', 0, 6, shards=6)], 'trace': COLUMN_TRACE, 'assumptions': []},
     'C15': seq_prop('c15', 100, 2000, mc=[MC_CONC_STRICT], more=[fam('conc', 'c15', 32, 500)]),
     'C16': seq_prop('c16', 150, 2500, mc=[MC_STORE_STRICT]),
     'C19': seq_prop('c19', 150, 2500, mc=[MC_STORE_STRICT]),
